@@ -62,6 +62,15 @@ OWN_H = ['{[#Hter][#PE][#PE][#Hter]}.{#PE=[$]CC[$],#Hter=[$][H]}', '{[#A][#B]}.{
          '{[#A][#B]}.{#A=OC[!],#B=[!]C([H])C}', '{[#A][#B]}.{#A=[O;w=2]C[!],#B=[!]C([H;w=0])[C;w=0.5]}',
          '{[#Hter][#PE]|3[#Hter]}.{#PE=[$]CC[$],#Hter=[$][H]}']
 WEIGHTS = [0.5, 2.0, 12.011, 1.008, 0.25, 3, 1, 1, 0]
+# five-membered hetero-aromatic rings (pysmiles/cgsmiles keep them LOCALISED: orders 1/2; RDKit's default aromaticity
+# model calls them aromatic), written in Kekule form and with lower-case letters; alone, fused to benzene, substituted,
+# as one fragment of a multi-fragment molecule; next to six-membered aromatics that both sides call aromatic
+HETERO5 = ['{[#A]}.{#A=C1=CNC=C1}', '{[#A]}.{#A=c1cc[nH]c1}', '{[#A]}.{#A=c1cnc[nH]1}', '{[#A]}.{#A=C1=COC=C1}',
+           '{[#A]}.{#A=C1=CSC=C1}', '{[#A]}.{#A=C1=CN=CN1}', '{[#A]}.{#A=C1=COC=N1}', '{[#A]}.{#A=c1ccc2[nH]ccc2c1}',
+           '{[#A]}.{#A=C1=CC2=CC=CC=C2N1}', '{[#A]}.{#A=CC1=CC=C(C)O1}', '{[#A][#B]}.{#A=[$]CC,#B=[$]C1=CC=CO1}',
+           '{[#A][#B]}.{#A=[$]c1ccccc1,#B=[$]C1=CC=CS1}', '{[#A][#B][#A]}.{#A=[$]C1=CC=CN1,#B=[$]CC[$]}',
+           '{[#A][#B]}.{#A=[$]C(=O)O,#B=[$]C1=CNC=C1}', '{[#A]}.{#A=c1ccncc1}', '{[#A]}.{#A=c1ccc2ccccc2c1}',
+           '{[#A]}.{#A=Cn1cccc1}', '{[#A]}.{#A=C1=CC=CC1}']
 
 
 def rand_cgsmiles(rng, small=True):
@@ -75,6 +84,8 @@ def rand_cgsmiles(rng, small=True):
         return rng.choice(MULTI)
     if r < 0.38:
         return rng.choice(ZERO_BOND)
+    if r < 0.46:
+        return rng.choice(HETERO5)
     nmid = rng.randint(0, 2 if small else 4)
     frags = {}
     names = []
@@ -254,6 +265,13 @@ class C18(common.Prop):
             {'kind': 'embed', 's': '{[#A].[#B]}.{#A=CCO,#B=O}', 'variant': 'implicit_h', 'perm': []},
             {'kind': 'embed', 's': '{[#A].[#B]}.{#A=CCO,#B=O}', 'variant': 'sorted', 'perm': []},
             {'kind': 'round', 's': '{[#A]}.{#A=CCO}', 'variant': 'asis', 'perm': [], 'conf': True, 'seed': 7},
+            {'kind': 'round', 's': HETERO5[0], 'variant': 'asis', 'perm': [], 'conf': False, 'seed': 7},
+            {'kind': 'round', 's': HETERO5[3], 'variant': 'sorted', 'perm': [], 'conf': False, 'seed': 7},
+            {'kind': 'round', 's': HETERO5[7], 'variant': 'asis', 'perm': [], 'conf': True, 'seed': 7},
+            {'kind': 'round', 's': HETERO5[11], 'variant': 'implicit_h', 'perm': [], 'conf': False, 'seed': 7},
+            {'kind': 'round', 's': HETERO5[14], 'variant': 'asis', 'perm': [], 'conf': False, 'seed': 7},
+            {'kind': 'embed', 's': HETERO5[0], 'variant': 'asis', 'perm': []},
+            {'kind': 'embed', 's': HETERO5[10], 'variant': 'asis', 'perm': []},
             {'kind': 'round', 's': ZERO_BOND[0], 'variant': 'asis', 'perm': [], 'conf': False, 'seed': 7},
             {'kind': 'round', 's': ZERO_BOND[1], 'variant': 'asis', 'perm': [], 'conf': False, 'seed': 7},
             {'kind': 'round', 's': ZERO_BOND[2], 'variant': 'sorted', 'perm': [], 'conf': False, 'seed': 7},
@@ -464,6 +482,9 @@ class C18(common.Prop):
                     return ad.get('weight', 1)
             return d.get('weight', 1)
         beads = [[b, [[a, float(string_weight(g, a))] for a in g.nodes]] for b, g in beads_g]
+        # CPython's sum() treats ints and floats differently (ints exactly / plainly, floats compensated)
+        ints = [[isinstance(string_weight(g, a), int) and not isinstance(string_weight(g, a), bool) for a in g.nodes]
+                for _, g in beads_g]
         if any(len(ws) == 0 or any(w < 0 for _, w in ws) or sum(w for _, w in ws) <= 0 for _, ws in beads):
             return {'skip': 'empty-negative-or-all-zero-weights'}     # outside the property's domain
         pos0 = {a: np.array([rng.uniform(-20, 20) for _ in range(3)]) for a in aa.nodes}
@@ -493,7 +514,7 @@ class C18(common.Prop):
                 cg.nodes[b].pop('position', None)
             forward_map_molecule(cg, aa)
             return [[b, [float(x) for x in cg.nodes[b]['position']]] for b in cg.nodes if 'position' in cg.nodes[b]]
-        out = {'beads': beads, 'pos': [[a, [float(x) for x in p]] for a, p in pos0.items()], 't': [float(x) for x in t],
+        out = {'beads': beads, 'ints': ints, 'pos': [[a, [float(x) for x in p]] for a, p in pos0.items()], 't': [float(x) for x in t],
                'own': own, 'exc': 0, 'out': [], 'out_t': [], 'out_p': [], 'history': history}
         try:
             out['out'] = run(pos0)
@@ -592,6 +613,16 @@ class C18(common.Prop):
             return 'r2n_conformer_unbound_name'
         if k == 'fwd' and code in (11, 13) and any(w != 1 for _, ws in impl['beads'] for _, w in ws):
             return 'fwd_weights_not_normalised'
+        if k == 'round' and code == 5 and impl['exc'] == 0:
+            # atoms unchanged, same bonds, and every changed order goes from localized (1 or 2) to aromatic (1.5):
+            # Chem.SanitizeMol re-perceived aromaticity with RDKit's model
+            idx = {n: i for i, n in enumerate(impl['nodes'])}
+            oe = {frozenset((idx[u], idx[v])): o for u, v, o in impl['orig_edges']}
+            re_ = {frozenset((u, v)): o for u, v, o in impl['out_edges']}
+            atoms = sorted([idx[n], e, q, h] for n, e, q, h in impl['orig_atoms']) == sorted(list(a) for a in impl['out_atoms'])
+            diffs = [(oe[e], re_.get(e)) for e in oe if oe[e] != re_.get(e)]
+            if atoms and set(oe) == set(re_) and diffs and all(a in (2, 4) and b == 3 for a, b in diffs):
+                return 'rdkit_reperceives_aromaticity'
         return None
 
     def coq_case(self, case, impl):
@@ -613,8 +644,9 @@ class C18(common.Prop):
                 at(impl['out_atoms']), ed(impl['out_edges']), lit.lst([lit.nat(i) for i in impl['canon']]),
                 lit.lst([lit.pair(lit.z(a), lit.nat(i)) for a, i in impl['out_pos']])))
         bl = lambda t: lit.lst([lit.pair(lit.z(b), v3(p)) for b, p in t])
-        return ('(CFwd %s %s %s %s %s %s %s %s)' % (
+        return ('(CFwd %s %s %s %s %s %s %s %s %s)' % (
             lit.lst([lit.pair(lit.z(b), lit.lst([lit.pair(lit.z(a), fhex(w)) for a, w in ws])) for b, ws in impl['beads']]),
+            lit.lst([lit.lst([lit.b(x) for x in row]) for row in impl.get('ints', [])]),
             bl(impl['pos']), v3(impl['t']), lit.nat(impl['exc']), bl(impl['out']), bl(impl['out_t']), lit.z(impl['own']),
             bl(impl['out_p'])))
 
